@@ -94,6 +94,7 @@ def run(ctx):
   power_iter(ctx)
   eigh_routine(ctx)
   provenance(ctx)
+  size1_error_honest(ctx)
   siblings(ctx)
   forwarding(ctx)
 
@@ -724,6 +725,35 @@ def provenance(ctx):
           ctx.ob('C01.R4', fi.short, f'epilogue[{q},rel={rel}]', okp and okx,
                  'all-padding epilogue (where(padding_start == 0, 0, .)) must guard both value and error',
                  ctx.loc(fi), sample='epilogue on value and error')
+
+
+def size1_error_honest(ctx):
+  """R2b: on the 1x1 shortcut of matrix_inverse_pth_root the reported error must be a function of the returned root:
+  a constant figure (0) makes the acceptance gate take whatever the closed form produces - NaN for a NaN statistic, inf
+  for a zero statistic with zero ridge - as a verified root (found F21)."""
+  m = ctx.model
+  fi = m.func(MOD, 'matrix_inverse_pth_root')
+  ctx.analysed(fi)
+  for pad in (True, False):
+    for rel in (True, False):
+      ev = evaluator(m, opaque={'mat_power', 'power_iteration'}, decide=_decider(padding=pad, size1=True, rel=rel, lobpcg=False, eigh=False))
+      r = ev.run(fi)
+      ctx.evaluations += 1
+      if r.op != 'tuple' or len(r.args) != 2 or rec_fields(r.args[1]) is None:
+        raise AnalysisError('matrix_inverse_pth_root does not return (matrix, TrainingMetrics)')
+      x = strip_casts(r.args[0])
+      err = strip_casts(rec_fields(r.args[1])['inverse_pth_root_errors'])
+      if pad:
+        sx, se = select_arms(x), select_arms(err)
+        x = strip_casts(sx[3]) if sx else x
+        err = strip_casts(se[3]) if se else err
+      # the root's defining computation: the closed-form power
+      pw = [t for t in walk(x) if t.op == 'bin' and t.args[0] == '**']
+      ok = bool(pw) and any(t is pw[0] or t is x for t in walk(err))
+      ctx.ob('C01.R2', fi.short, f'1x1 shortcut: reported error depends on the returned root [pad={pad},rel={rel}]', ok,
+             f'on the matrix_size == 1 path the error figure is `{show(err, maxdepth=4)[:100]}`, which does not depend on the returned root: a non-finite '
+             'root (NaN statistic; zero statistic with zero ridge) is reported as error-free and accepted by the gate', ctx.loc(fi),
+             sample='error = f(returned root)')
 
 
 def siblings(ctx):
